@@ -38,6 +38,8 @@ CAT = [
     ("string", "x+y", "{plus}"),
     ("entry", "g", "k7", [("m1", "a.b"), ("m2", "axb"), ("m3", "x+y"), ("m4", "xy"), ("m5", "x++y"), ("m6", "{a.b}"), ("m7", "%s"), ("m8", "a.b # x+y")]),
     ("entry", "h", "s", [("x", "s"), ("y", "t"), ("ID", "s")]),  # an entry whose citation key is the name of a string; a field called ID
+    ("string", "jan", '"Janvier"'),  # a string named like one of BibTeX's month macros
+    ("entry", "i", "k8", [("month", "jan"), ("note", "jan"), ("Month", "jan"), ("month2", "{jan}"), ("year", "dec")]),
     ("garbage", "@string{oops"),  # a definition that breaks off (a failed block): what follows is defined and resolved as ever
 ]
 
